@@ -105,12 +105,20 @@ Definition lim (c : case) : limits :=
 Definition item_intervals (samp : limits -> f64 -> f64) (c : case) : list Z :=
   repeat (canon (samp (lim c) (of_bits (c_samp c)))) 6.
 
+(* what ModifySubscription answers for the same request on an existing subscription (created with
+   other, already revised values): the revised values do not depend on what the subscription had *)
+Definition modify_answer (c : case) : list Z :=
+  match revise_subscription_values (lim c) (of_bits (c_pub c)) (c_ka c) (c_lt c) with
+  | Panic => [-2]
+  | Done (p, k, t) => [canon p; k; t]
+  end.
+
 Definition run_with (samp : limits -> f64 -> f64) (c : case) : list Z :=
   (match revise_subscription_values (lim c) (of_bits (c_pub c)) (c_ka c) (c_lt c) with
    | Panic => [-2]
    | Done (p, k, t) => [canon p; k; t]
    end) ++ [canon (samp (lim c) (of_bits (c_samp c))); sanitize_queue_size (lim c) (c_q c)]
-  ++ item_intervals samp c.
+  ++ item_intervals samp c ++ modify_answer c.
 
 Definition run (c : case) : list Z := run_with sanitize_sampling_interval c.
 Definition legacy_run (c : case) : list Z := run_with Legacy.sanitize_sampling_interval c.
@@ -139,7 +147,13 @@ Definition bounds (c : case) (out : list Z) : bool :=
       samp_ok c s &&
       ((1 <=? qs) && (qs <=? c_max_q c)) &&
       (* the same bound on the interval every created / modified item holds, whatever its filter *)
-      Nat.eqb (length items) 6 && forallb (samp_ok c) items
+      Nat.eqb (length items) 9 && forallb (samp_ok c) (firstn 6 items) &&
+      (* ... and on what ModifySubscription answers *)
+      match skipn 6 items with
+      | [p2; k2; t2] =>
+          fle (of_bits (c_min_pub c)) (of_bits p2) && ((1 <=? k2) && (k2 <=? c_max_ka c)) && (3 * k2 <=? t2)
+      | _ => false
+      end
   | _ => false
   end.
 
